@@ -1018,6 +1018,117 @@ class Driver:
             self.stats['nontrivial'][k] = self.stats['nontrivial'].get(k, 0) + 1
         return trace
 
+    # -- deep behaviours from tlc -simulate -------------------------------------------------------------
+    def run_simulated(self, states):
+        """Replay one behaviour produced by `tlc -simulate` (a concrete branch of the specification, typically much
+        deeper than the exported graph). Data is compared at every step (returned values, free reads, projections,
+        database dumps); when pony reports a different *outcome* than this branch the behaviour ends without a
+        verdict, because the specification may allow that outcome on another branch (error timing is free)."""
+        w, rng = self.world, self.rng
+        w.reset(states[0]['db'])
+        ad = Adapter(w, rng)
+        trace = [{'init': norm_plain(states[0]['db']), 'open': states[0]['sess'] == 'open'}]
+        if self.on_behaviour:
+            self.on_behaviour('begin', trace)
+        self.stats['behaviours'] += 1
+        self.stats.setdefault('sim_inconclusive', 0)
+        kinds = set()
+
+        class OneState(set):
+            pass
+        try:
+            if trace[0]['open']:
+                ad.do_Begin({})
+            for i in range(1, len(states)):
+                prev, node = states[i - 1], states[i]
+                ev = node['ev']
+                if ev['op'] == 'tau':
+                    continue
+                key = Graph.key(ev)
+                is_write = key[0] not in READ_OPS and key[0] not in CONTROL_OPS
+                quiet_before = prev['view']['quiet']
+                if is_write and quiet_before and rng.random() < 0.6:
+                    self.stats['free_reads'] = self.stats.get('free_reads', 0) + self.free_reads_state(ad, prev, key, 'before')
+                if key[0] in ('Commit', 'End') and quiet_before and rng.random() < 0.5:
+                    ad.project(prev['cur'], 'before-commit')
+                    self.stats['projections'] += 1
+                out, ret = ad.call(ev)
+                if self.after_call:
+                    self.after_call(key[0], out)
+                self.stats['steps'] += 1
+                trace.append({'op': key[0], 'e': key[1], 'k': key[2], 'x': key[3], 'y': key[4], 'out': out, 'ret': sorted(ret)})
+                if out != ev['out']:
+                    if out.startswith('Other:') or (out == 'Internal' and key[0] != 'End'):
+                        raise Mismatch('crash', '%s%r: pony -> %s; this branch of the specification expects %s' % (key[0], key[1:], out, ev['out']))
+                    self.stats['sim_inconclusive'] += 1
+                    break
+                if out == 'ok' and set(ret) != set(ev['ret']):
+                    raise Mismatch('read', '%s%r: pony returned %r; the specification says %r' % (key[0], key[1:], sorted(ret), sorted(ev['ret'])))
+                quiet = node['view']['quiet']
+                if node['sess'] == 'open':
+                    curA, curB = fmap(node['cur']['A']), fmap(node['cur']['B'])
+                    for (e, k) in list(w.registry):
+                        if not (curA if e == 'A' else curB)[k]['ex']:
+                            del w.registry[(e, k)]
+                else:
+                    w.registry = {}
+                if key[0] in READ_OPS:
+                    self.stats['reads_compared'] += 1
+                if out not in ('ok', 'Integrity'):
+                    self.stats['failures_checked'] += 1
+                    kinds.add('failing-call')
+                    if quiet:
+                        ad.project(node['cur'], 'after-failure')
+                        self.stats['projections'] += 1
+                elif out == 'Integrity':
+                    self.stats['flush_conflicts'] += 1
+                    kinds.add('flush-conflict')
+                if is_write and out == 'ok' and quiet:
+                    n = self.free_reads_state(ad, node, key, 'after')
+                    self.stats['free_reads'] = self.stats.get('free_reads', 0) + n
+                    kinds.add('read-after-unflushed-write')
+                if key[0] in ('Delete', 'CollRemove', 'CollClear'):
+                    self.stats['deletes'] += 1
+                    kinds.add('delete')
+                if key[0] in ('Commit', 'End', 'EndExc', 'Rollback') or out == 'Integrity':
+                    got, problems = w.dump()
+                    self.stats['commits_compared'] += 1
+                    if problems:
+                        raise Mismatch('keys' if 'duplicate' in problems[0] else 'delete', 'database after %s: %s' % (key[0], '; '.join(problems)))
+                    if got != norm_state(node['db']):
+                        raise Mismatch('keys' if out == 'Integrity' else 'commit',
+                                       'database after %s(%s) is %r, specification says %r' % (key[0], out, got, norm_state(node['db'])))
+                    if key[0] in ('Commit', 'End') and out == 'ok':
+                        kinds.add('commit')
+                elif quiet and rng.random() < 0.1:
+                    ad.project(node['cur'], 'random-point')
+                    self.stats['projections'] += 1
+        except Mismatch as m:
+            self.found.append((m.category, m.what, list(trace)))
+        except MachineryError:
+            raise
+        except Exception as exc:
+            tb = traceback.format_exc()
+            self.found.append(('crash', 'unexpected %s in pony or the adapter: %s\n%s' % (type(exc).__name__, exc, tb[-1500:]), list(trace)))
+        finally:
+            self.stats['identity_checks'] += ad.identity_checks
+            self.cleanup()
+            if self.on_behaviour:
+                self.on_behaviour('end', trace)
+        for k in kinds:
+            self.stats['nontrivial'][k] = self.stats['nontrivial'].get(k, 0) + 1
+        return trace
+
+    def free_reads_state(self, ad, state, key, when):
+        """free_reads for a single known specification state (simulation mode)."""
+        saved = (self.agreed, self.can_project)
+        self.agreed = lambda belief, var: state[var]
+        self.can_project = lambda belief, acts=None: state['view']['quiet']
+        try:
+            return self.free_reads(ad, None, key, when)
+        finally:
+            self.agreed, self.can_project = saved
+
     def cleanup(self):
         w = self.world
         if w.session is not None:
